@@ -67,6 +67,7 @@ def run(idx: ProgramIndex, rep: Report, tier: str):
     detach_neutral(idx, rep, rule="C04-6", only_functions={"get_fantasy_strategy", "get_fantasy_model"}, floor=1)
     lazy_references(idx, rep)
     residual_layout(idx, rep)
+    per_member_kwargs(idx, rep)
     rep.assume("exception safety is outside the statement: a deepcopy that raises (e.g. non-leaf cached tensors) leaves the source with nulled attributes, but then no fantasy model was created")
 
 
@@ -400,6 +401,12 @@ def _ctor_field(idx: ProgramIndex, fi: FuncInfo, call: ast.Call, kw: str) -> Opt
     for n in ast.walk(init.node):
         if isinstance(n, ast.Assign) and len(n.targets) == 1 and isinstance(n.targets[0], ast.Attribute) and isinstance(n.targets[0].value, ast.Name) and n.targets[0].value.id == sn \
                 and isinstance(n.value, ast.Name) and n.value.id == kw:
+            return n.targets[0].attr
+    # ... or stores it after a helper of the class worked on it: self.<attr> = self._helper(<kw>)
+    for n in ast.walk(init.node):
+        if isinstance(n, ast.Assign) and len(n.targets) == 1 and isinstance(n.targets[0], ast.Attribute) and isinstance(n.targets[0].value, ast.Name) and n.targets[0].value.id == sn \
+                and isinstance(n.value, ast.Call) and isinstance(n.value.func, ast.Attribute) and chain(n.value.func.value) in (sn, r.name) and len(n.value.args) == 1 \
+                and isinstance(n.value.args[0], ast.Name) and n.value.args[0].id == kw:
             return n.targets[0].attr
     raise AnalysisError("%s: constructor %s does not store its `%s` argument under an attribute (unknown form)" % (fi.qualname, r.qualname, kw))
 
@@ -789,3 +796,32 @@ def fantasy_noise_kept(idx: ProgramIndex, rep: Report):
                     "%s.forward uses a `noise=` keyword directly, so get_fantasy_strategy conditions the new points with the caller's noise, but %s.get_fantasy_likelihood ignores its keywords (%s): everything the fantasy model recomputes from its stored likelihood uses the old noise - the fantasy posterior is that of no single GP and changes with fast_pred_var" % (
                         N.name, cls.qualname, "inherited `deepcopy(self)`" if gfl is None or gfl.cls is not cls else "own implementation"), {})
     rep.floor("C04-11", "likelihood classes whose noise model honours noise=", n, 2)
+
+
+# ---- C04-12 --------------------------------------------------------------------------------------------------------
+def per_member_kwargs(idx: ProgramIndex, rep: Report):
+    """The list containers hand every member its own keyword dictionary, built from the SHARED keywords of the call plus that member's entry
+    (noise).  A loop that re-binds (or updates) the shared dictionary itself carries one member's entry over to the members after it - a
+    member whose own entry is None then silently receives its predecessor's noise."""
+    rep.rule("C04-12", "the per-member keyword dictionaries of the list containers are built from the shared keywords afresh: no loop re-binds or updates the shared dictionary")
+    n = 0
+    for cname in ("IndependentModelList", "LikelihoodList"):
+        cls = idx.find_class(cname)
+        for name, fi in sorted(cls.methods.items()):
+            kw = fi.node.args.kwarg.arg if fi.node.args.kwarg is not None else None
+            if kw is None:
+                continue
+            n += 1
+            probs = []
+            for loop in [x for x in ast.walk(fi.node) if isinstance(x, (ast.For, ast.While))]:
+                for st in ast.walk(loop):
+                    if isinstance(st, ast.Assign) and any(isinstance(t, ast.Name) and t.id == kw for t in st.targets) and any(isinstance(x, ast.Name) and x.id == kw for x in ast.walk(st.value)):
+                        probs.append("line %d re-binds `%s` from itself inside a loop over the members (`%s`)" % (st.lineno, kw, " ".join(src(st).split())[:60]))
+                    if isinstance(st, ast.Assign) and any(isinstance(t, ast.Subscript) and isinstance(t.value, ast.Name) and t.value.id == kw for t in st.targets):
+                        probs.append("line %d stores a member's entry in the shared `%s` inside a loop" % (st.lineno, kw))
+                    if isinstance(st, ast.Call) and isinstance(st.func, ast.Attribute) and st.func.attr in ("update", "setdefault", "pop") and isinstance(st.func.value, ast.Name) and st.func.value.id == kw:
+                        probs.append("line %d mutates the shared `%s` inside a loop (`%s`)" % (st.lineno, kw, " ".join(src(st).split())[:50]))
+            rep.add("C04-12", "%s:%s.%s[shared keywords]" % (cls.module.name, cname, name), fi.where, not probs,
+                    "the shared keyword dictionary is not changed inside a loop over the members" if not probs else
+                    "; ".join(sorted(set(probs))) + ": every later member whose own entry is None receives the previous member's entry (fantasy models: the noise of another model)", {}, trivial=not any(isinstance(x, (ast.For, ast.While)) for x in ast.walk(fi.node)))
+    rep.floor("C04-12", "list-container methods with shared keywords", n, 4)
